@@ -1,6 +1,8 @@
 use codespan_reporting::files::{Files, SimpleFile};
 use lsp_types::{Location, Url};
 
+#[cfg(lelwel_verif)]
+use ::lelwel_verif_shim::std_fs as std;
 use crate::frontend::lexer::Token;
 use crate::frontend::parser::Span;
 use crate::{Cst, Node, NodeRef, Rule, SemanticData};
